@@ -128,7 +128,7 @@ func c19R1(c *Ctx) {
 					names = append(names, "run lock acquisition")
 				}
 			case *ssa.Alloc:
-				if strings.HasSuffix(x.Type().String(), "workflow.loopState") {
+				if strings.HasSuffix(normTypeNames(x.Type().String()), "workflow.loopState") {
 					targets = append(targets, x)
 					names = append(names, "run state construction")
 				}
